@@ -97,8 +97,17 @@ def run(ctx):
     n_scen = ctx.scale(4, 16)
     n_deliv = ctx.scale(70, 120)
     broken_classes = [c for c in ledger.classes_for("all") if c not in ledger.EXPECT_VALID and c != "orphan"]
+    from .c19 import patch_everywhere
     for si in range(n_scen):
         keys, tree, rn, ops, impl = setup(ctx, rng, res)
+        # the configured batch size (inventories, block requests) made smaller than the trees are high in every other scenario:
+        # nothing about unsolicited deliveries depends on it
+        small_batch = 3 if si % 2 == 1 else None
+        saved_batch = patch_everywhere("GET_BLOCKS_INVENTORY_SIZE", small_batch) if small_batch else []
+        if small_batch:
+            ops.append("p inventorySize %d" % small_batch)
+            impl.append("ok")
+            res.count("scenarios_with_batch_size_3")
         cr = ledger.Crafter(tree)
         known = {b.hash() for b in tree.blocks}         # what the node has
         held_back = []                                  # valid blocks built but not yet delivered (orphans' parents)
@@ -124,6 +133,9 @@ def run(ctx):
             elif choice < 0.30:
                 # a new valid block on the head or on a fork
                 parent = tree.cs.current_chain_hash if rng.random() < 0.6 else rng.choice(tree.blocks[-7:]).hash()
+                if rng.random() < 0.3:
+                    parent = rng.choice(tree.blocks[:4]).hash()        # a fork far below the head (deeper than the batch size)
+                    res.count("valid_block_on_a_fork_near_the_root")
                 if parent not in known:
                     parent = tree.cs.current_chain_hash if tree.cs.current_chain_hash in known else None
                 if parent is None:
@@ -222,8 +234,12 @@ def run(ctx):
                     if newf != want:
                         res.violations.append({**info, "kind": "relay: peer %d got %s, expected %s" % (pi, newf, want)})
             else:
-                if fully_valid and blk.hash() not in prior.block_by_hash and kind in ("valid", "held_back", "redelivered_after_rollback"):
+                if fully_valid and blk.hash() not in prior.block_by_hash:
+                    # (full validation succeeded on the state the node had: in particular the parent is stored)
                     res.count("valid-not-entered")
+                    res.violations.append({**info, "kind": "a delivered block that passes full validation against its parent's state "
+                                                           "(parent stored, height %d, head at %d) was dropped: not in the chain state, not "
+                                                           "stored" % (blk.height, prior.head().height)})
                 if after != before and pending_unvalidated:
                     res.count("rollback-dropped-unvalidated-blocks")
                 elif after != before:
@@ -244,6 +260,11 @@ def run(ctx):
             if i not in disk:
                 res.violations.append({"kind": "an accepted block is missing from the store at the end", "id": i.hex()})
         rn.close()
+        for m_, v_ in saved_batch:
+            m_.GET_BLOCKS_INVENTORY_SIZE = v_
+        if small_batch:
+            ops.append("p inventorySize 500")
+            impl.append("ok")
         model = ctx.driver.ask(ops)
         kit.compare(res, ops, impl, model)
     chain.unpatch()
